@@ -232,10 +232,47 @@ func ctlIterScalarOK(groups [][]string) int {
 	return n
 }
 
+// ---- stalecopy: the range copy is read after the element was updated
+type ctlRule struct {
+	missing int
+	glyphs  []int
+}
+
+func ctlStaleCopy(rules []ctlRule, have map[int]bool) bool {
+	again := false
+	for i, r := range rules {
+		for _, g := range r.glyphs {
+			if have[g] {
+				rules[i].missing--
+			}
+		}
+		if r.missing == 0 {
+			again = true
+		}
+	}
+	return again
+}
+
+func ctlStaleCopyOK(rules []ctlRule, have map[int]bool) bool {
+	again := false
+	for i, r := range rules {
+		for _, g := range r.glyphs {
+			if have[g] {
+				rules[i].missing--
+			}
+		}
+		if rules[i].missing == 0 {
+			again = true
+		}
+	}
+	return again
+}
+
 // CtlUse2 keeps further examples reachable.
 func CtlUse2(xs []int) bool {
 	_ = ctlSuccTest(nil) + ctlSuccTestWide(nil)
 	_ = ctlSuccTestGuard(1, 2)
+	_ = ctlStaleCopy(nil, nil) || ctlStaleCopyOK(nil, nil)
 	_ = ctlIterScalar(nil) + ctlIterScalarOK(nil)
 	_ = ctlWrapBoundOK(1, 2, ctlWrapBound(1, 2, nil))
 	return ctlFlagReduce(xs)
